@@ -11,20 +11,21 @@ from .index import FuncInfo, norm_stmt
 
 class State:
     """Flow-sensitive state at a program point."""
-    __slots__ = ("env", "facts", "ctrl", "reachable")
+    __slots__ = ("env", "facts", "ctrl", "reachable", "xctrl")
 
-    def __init__(self, env=None, facts=frozenset(), ctrl=frozenset(), reachable=True):
+    def __init__(self, env=None, facts=frozenset(), ctrl=frozenset(), reachable=True, xctrl=frozenset()):
         self.env: Dict[str, AV] = env if env is not None else {}
         self.facts: frozenset = facts
-        self.ctrl: frozenset = ctrl
+        self.ctrl: frozenset = ctrl          # control dependence on enclosing branches / loops
         self.reachable: bool = reachable
+        self.xctrl: frozenset = xctrl        # control dependence through earlier conditional exits
 
     def copy(self) -> "State":
-        return State(dict(self.env), self.facts, self.ctrl, self.reachable)
+        return State(dict(self.env), self.facts, self.ctrl, self.reachable, self.xctrl)
 
     def same(self, other: "State") -> bool:
         return (self.reachable == other.reachable and self.facts == other.facts and self.ctrl == other.ctrl
-                and self.env == other.env)
+                and self.xctrl == other.xctrl and self.env == other.env)
 
 
 def join_states(a: Optional[State], b: Optional[State]) -> Optional[State]:
@@ -41,7 +42,7 @@ def join_states(a: Optional[State], b: Optional[State]) -> Optional[State]:
             continue
         else:
             env[k] = a.env.get(k) or b.env.get(k)
-    return State(env, a.facts & b.facts, a.ctrl | b.ctrl, True)
+    return State(env, a.facts & b.facts, a.ctrl | b.ctrl, True, a.xctrl | b.xctrl)
 
 
 @dataclass
@@ -85,6 +86,7 @@ class Event:
     caught: bool = False
     facts: frozenset = frozenset()
     ctrl: frozenset = frozenset()
+    xctrl: frozenset = frozenset()
     sub: Optional["Summary"] = None        # call: summary of the inlined callee
     note: str = ""
 
